@@ -132,7 +132,15 @@ class PackedPointRecord:
         """Tries to copy the values of the current dimensions from other_record"""
         for dim_name in self.point_format.dimension_names:
             try:
-                self[dim_name] = np.array(other_record[dim_name])
+                other_dim = other_record[dim_name]
+                if isinstance(other_dim, ScaledArrayView) and isinstance(
+                    self[dim_name], ScaledArrayView
+                ):
+                    # copy the stored values, going through the scaled
+                    # values would round them
+                    self.array[dim_name] = other_record.array[dim_name]
+                else:
+                    self[dim_name] = np.array(other_dim)
             except ValueError:
                 pass
 
